@@ -32,7 +32,7 @@ def executed(case):
 
 class Prop:
     pid = "C06"
-    vo_check = ["theories/HsGate/Check.vo"]
+    vo_check = ["theories/HsGate/Check.vo", "theories/Gen/TaiAst.vo"]
     vo_props = ["theories/Props/C06.vo"]
     k_names = ["handshake-gate(device co-simulation == HsGate.Model.step, outputs + peer snapshot + index table after every step)",
                "tai64n(VerifStamp == Tai64n.Model.stamp, Timestamp.After == after_bytes)"]
@@ -54,12 +54,15 @@ class Prop:
                    "instants are not before 1970; tai64n seconds do not wrap (true for every int64 Unix time)",
                    "the 20 ms flood gap is exercised at <5 ms and >40 ms; steps whose measured gap falls in [5 ms, 40 ms] accept either outcome (counted)",
                    "message types 3/4 substituted into handshake bytes leave the slice (cookie/transport paths) and are only checked to be inert"]
-    trusted_extra = ["harness/ref (protocol from the white-paper) builds and opens the messages; harness/cosim+sim drive the device",
+    trusted_extra = ["translator harness/cmd/taiast (go/parser: bodies of Timestamp.After and stamp of tai64n/tai64n.go as a deep-embedded AST; bytes.Compare is a recognised primitive; unrecognised constructs become Unknown nodes; notes/C01-C06-ast.md)",
+                     "harness/ref (protocol from the white-paper) builds and opens the messages; harness/cosim+sim drive the device",
                      "device accessors VerifPeer / VerifIndexTable / VerifShiftHandshakeTimes and Device.IpcGet for the snapshots",
                      "Base/Ints.v: primitive Uint63 literals carry all numbers in generated case files"]
 
     def __init__(self):
         self.dir = os.path.join(vlib.OUT, "C06")
+        # translator G2: Timestamp.After and stamp regenerated from the source on every run
+        self.translators = [lambda: vlib.gen_file("taiast", os.path.join("Gen", "TaiAst.v"), ["-repo", vlib.REPO])]
         self.extra_coverage = {}
 
     def _load(self, d):
